@@ -74,12 +74,14 @@ pub fn profile(id: &str) -> Profile {
             p.streams = (1, 2);
             p.queue_level_pct = 0;
             p.gates = (0, 2);
+            p.pool = (1, 3);
             p.root_holds_pct = 40;
         }
         "C12" => {
             p.opw = OpW { pipe: 8, consume: 12, desync: 3, sync: 3, ..OpW::default() };
             p.streams = (1, 2);
             p.queue_level_pct = 0;
+            p.pool = (1, 3);
             p.gates = (0, 2);
         }
         "C13" => {
